@@ -193,6 +193,90 @@ theorem C19_model_meets_spec (cf : Conf) (ops : List Op) (w : World)
       rw [hb b hvd]
       simp
 
+/-! ### in front of the checkers: `DNSFilter.CheckHost` -/
+
+/-- **Letter case of the query name is irrelevant**: names that lower-case to
+the same string get the same verdict and send the same questions to both
+lookup services — whatever the services answer. -/
+theorem C19_case_insensitive (st : HostSetts) (sufS sufP : Bytes) (H : Bytes → Hash)
+    (psOf : Bytes → Bytes × Bool) (exS exP : Bytes → Option (List RR)) (h₁ h₂ : Bytes)
+    (h : lower h₁ = lower h₂) :
+    checkHostSB st sufS sufP H psOf exS exP h₁ = checkHostSB st sufS sufP H psOf exS exP h₂ := by
+  have hn : ∀ x : Bytes, lower x = [] ↔ x = [] := fun x => by simp [lower]
+  have hnil : h₁ = [] ↔ h₂ = [] :=
+    ⟨fun e => (hn h₂).mp (h ▸ (hn h₁).mpr e), fun e => (hn h₁).mp (h ▸ (hn h₂).mpr e)⟩
+  unfold checkHostSB
+  by_cases e : h₁ = []
+  · simp [e, hnil.mp e]
+  · have e2 : h₂ ≠ [] := fun e' => e (hnil.mpr e')
+    simp only [e, e2, if_false, h]
+
+/-- One fresh checker behind CheckHost, against an honest service: the
+question has the allowed shape and the verdict is the fresh verdict. -/
+theorem checkFresh_spec (suffix : Bytes) (H : Bytes → Hash) (psOf : Bytes → Bytes × Bool)
+    (db : List Hash) (ans : Bytes → List RR) (name : Bytes)
+    (hps : psOK (psOf name).1 (psOf name).2 name = true) (hlen : ∀ s, (H s).length = 32)
+    (hhon : ∀ toReq, Honest db toReq (receivedHashes (ans (getQuestion suffix toReq)))) :
+    privacyOK H suffix (psOf name).1 (psOf name).2 name
+      (checkFresh suffix H psOf (fun q => some (ans q)) name).question = true ∧
+    (checkFresh suffix H psOf (fun q => some (ans q)) name).verdict =
+      .blocked (freshVerdict H db (psOf name).1 (psOf name).2 name) := by
+  let o : CheckOp := ⟨name, (psOf name).1, (psOf name).2, H, false, ans, canonGroups⟩
+  let w : World := ⟨Cache.new 0, 0, db⟩
+  have hv : Valid ⟨suffix, 0⟩ w [.check o] :=
+    ⟨⟨hps, hlen, fun toReq _ => ⟨hhon toReq, canonGroups_valid _⟩⟩, trivial⟩
+  have hspec : specOK (o.input ⟨suffix, 0⟩ w) (doCheck ⟨suffix, 0⟩ w o).1 = true :=
+    (C19_model_meets_spec ⟨suffix, 0⟩ [.check o] w (inv_empty db 0 0) hv).1
+  have htr : (∀ b, (doCheck ⟨suffix, 0⟩ w o).1.verdict = .blocked b →
+        b = freshVerdict o.H w.db o.ps o.icann o.host) ∧
+      ((doCheck ⟨suffix, 0⟩ w o).1.verdict = .upstreamErr → o.err = true ∧ _) :=
+    (C19_cache_transparent ⟨suffix, 0⟩ [.check o] w (inv_empty db 0 0) hv).1
+  have hex : o.exchange = fun q => some (ans q) := by
+    funext q; simp [CheckOp.exchange, o]
+  have hout : (doCheck ⟨suffix, 0⟩ w o).1 = checkFresh suffix H psOf (fun q => some (ans q)) name := by
+    simp only [doCheck, checkFresh, hex]
+    rfl
+  rw [hout] at hspec htr
+  simp only [specOK, CheckOp.input, o, hps, Bool.not_true, Bool.false_or, Bool.and_eq_true] at hspec
+  refine ⟨hspec.1, ?_⟩
+  cases hvd : (checkFresh suffix H psOf (fun q => some (ans q)) name).verdict with
+  | upstreamErr => have := (htr.2 hvd).1; simp [o] at this
+  | blocked b => rw [htr.1 b hvd]
+
+/-- **CheckHost meets the spec on the name as queried**: with honest services,
+for every letter case of the query name, only prefixes of the lower-cased name
+and its allowed parents are sent, nothing is sent for a service that is off,
+and the result is "safe browsing" / "parental" exactly when the respective
+database holds a full hash of one of those names (safe browsing first). -/
+theorem C19_host_meets_spec (i : HostIn) (ansS ansP : Bytes → List RR)
+    (hps : psOK (i.psOf (lower i.host)).1 (i.psOf (lower i.host)).2 (lower i.host) = true)
+    (hlen : ∀ s, (i.H s).length = 32)
+    (hS : ∀ toReq, Honest i.dbS toReq (receivedHashes (ansS (getQuestion i.sufS toReq))))
+    (hP : ∀ toReq, Honest i.dbP toReq (receivedHashes (ansP (getQuestion i.sufP toReq)))) :
+    hostSpecOK i (checkHostSB i.setts i.sufS i.sufP i.H i.psOf (fun q => some (ansS q))
+      (fun q => some (ansP q)) i.host) = true := by
+  obtain ⟨s1, s2⟩ := checkFresh_spec i.sufS i.H i.psOf i.dbS ansS (lower i.host) hps hlen hS
+  obtain ⟨p1, p2⟩ := checkFresh_spec i.sufP i.H i.psOf i.dbP ansP (lower i.host) hps hlen hP
+  have pn : ∀ suf, privacyOK i.H suf (i.psOf (lower i.host)).1 (i.psOf (lower i.host)).2 (lower i.host) none = true :=
+    fun _ => rfl
+  simp only [hostSpecOK, hps, Bool.not_true, Bool.false_or, hostVerdict]
+  unfold checkHostSB
+  by_cases e : i.host = []
+  · simp only [e, if_true]
+    exact by simp; exact ⟨rfl, rfl⟩
+  · simp only [e, if_false]
+    generalize checkFresh i.sufS i.H i.psOf (fun q => some (ansS q)) (lower i.host) = oS at s1 s2
+    generalize checkFresh i.sufP i.H i.psOf (fun q => some (ansP q)) (lower i.host) = oP at p1 p2
+    obtain ⟨vS, qS⟩ := oS
+    obtain ⟨vP, qP⟩ := oP
+    simp only at s1 s2 p1 p2
+    subst s2 p2
+    cases hsb : (i.setts.protection && i.setts.safeBrowsing) <;>
+    cases hpc : (i.setts.protection && i.setts.parental) <;>
+    cases hfS : freshVerdict i.H i.dbS (i.psOf (lower i.host)).1 (i.psOf (lower i.host)).2 (lower i.host) <;>
+    cases hfP : freshVerdict i.H i.dbP (i.psOf (lower i.host)).1 (i.psOf (lower i.host)).2 (lower i.host) <;>
+    simp [pn, s1, p1, hsb, hpc]
+
 /-! ### Non-vacuity: a concrete valid history with a fresh positive, a cached
 positive, an expiry and a cached negative. -/
 
